@@ -283,3 +283,111 @@ def rule_query_purity(ctx, family, queries, ctor_names=()):
                 "owned by self here (possibly a cached array handed out by "
                 "another method): calling the query changes what later "
                 "calls on the same object return", instance=inst)
+
+
+# ---------------------------------------------------------------------------
+# CLS1: no mutable class-level default shared by the instances
+
+
+def _always_assigns(body, attr):
+    """every path through `body` (that does not raise) executes
+    `self.<attr> = ...`"""
+    for st in body:
+        if isinstance(st, ast.Assign):
+            for t in st.targets:
+                for el in (t.elts if isinstance(t, (ast.Tuple, ast.List))
+                           else [t]):
+                    if isinstance(el, ast.Attribute) and _self_attr(el) == attr:
+                        return True
+        if isinstance(st, ast.If):
+            if st.orelse and _always_assigns(st.body, attr) \
+                    and _always_assigns(st.orelse, attr):
+                return True
+            if _always_assigns(st.body, attr) and not st.orelse:
+                pass
+        if isinstance(st, (ast.With,)):
+            if _always_assigns(st.body, attr):
+                return True
+        if isinstance(st, ast.Try):
+            if _always_assigns(st.body, attr) and all(
+                    _always_assigns(h.body, attr) for h in st.handlers):
+                return True
+            if st.finalbody and _always_assigns(st.finalbody, attr):
+                return True
+        if isinstance(st, (ast.Return, ast.Raise)):
+            return isinstance(st, ast.Raise)
+    return False
+
+
+_MUTATORS = {"append", "extend", "insert", "pop", "remove", "clear",
+             "update", "setdefault", "add", "discard", "popitem", "sort",
+             "reverse"}
+
+
+def rule_cls1(ctx, family):
+    r = ctx.r
+    r.rule("CLS1", "a mutable container bound at class level (dict / list / "
+                   "set literal or constructor call) that methods update in "
+                   "place through self is one object shared by every "
+                   "instance: every path through __init__ must rebind it "
+                   "on the instance")
+    spec = FAMILIES[family]
+    root = ctx.p.get_class(*spec["root"])
+    classes = [root] + ctx.p.subclasses(root)
+    n = 0
+    for c in classes:
+        shared = {}
+        for st in c.node.body:
+            if isinstance(st, ast.Assign) and len(st.targets) == 1 \
+                    and isinstance(st.targets[0], ast.Name):
+                v = st.value
+                if isinstance(v, (ast.Dict, ast.List, ast.Set)) or (
+                        isinstance(v, ast.Call) and dotted(v.func) in (
+                            "dict", "list", "set", "defaultdict",
+                            "OrderedDict", "collections.defaultdict")):
+                    shared[st.targets[0].id] = st
+        for attr, st in shared.items():
+            n += 1
+            # in-place updates through self anywhere in the family
+            mut = None
+            for k in classes:
+                if c not in ctx.p.mro(k):
+                    continue
+                for f in k.methods.values():
+                    for x in ast.walk(f.node):
+                        if isinstance(x, (ast.Assign, ast.AugAssign)):
+                            tg = x.targets if isinstance(x, ast.Assign) \
+                                else [x.target]
+                            for t in tg:
+                                if isinstance(t, ast.Subscript) \
+                                        and _self_attr(t) == attr:
+                                    mut = mut or (f, x)
+                        if isinstance(x, ast.Call) and isinstance(
+                                x.func, ast.Attribute) \
+                                and x.func.attr in _MUTATORS \
+                                and _self_attr(x.func.value) == attr:
+                            mut = mut or (f, x)
+            inits = [k.methods["__init__"] for k in ctx.p.mro(c)
+                     if "__init__" in k.methods]
+            init = c.methods.get("__init__") or (inits[0] if inits else None)
+            rebinds = init is not None and _always_assigns(init.node.body,
+                                                           attr)
+            inst = f"{c.name}.{attr}"
+            if mut is None or rebinds:
+                r.ok("CLS1", inst, loc(c, st), norm_stmt(st)[:100],
+                     "not updated in place through self" if mut is None else
+                     "rebound on every path through __init__")
+            else:
+                f, x = mut
+                r.violation(
+                    "CLS1", f"{c.fq}|{attr}",
+                    loc(c, st), norm_stmt(st)[:120],
+                    f"`{attr}` is a class-level mutable default and "
+                    f"{f.qualname} updates it in place (`{dotted(x)[:60]}`), "
+                    "but __init__ does not rebind it on every path: all "
+                    "instances built that way share one container, so "
+                    "assigning a generator in one object changes the others",
+                    instance=inst)
+    if n == 0:
+        r.ok("CLS1", f"{family}:none", loc(root, root.node), "",
+             f"{len(classes)} classes: no mutable class-level default")
